@@ -49,6 +49,12 @@ class ExprMixin:
     def num(self, v, what, path, line):
         """Return (term, is_real) of a numeric value; None / non-numbers are a TypeError obligation."""
         if isinstance(v, VInt): return v.t, False
+        if isinstance(v, VUnion) and self.spec_mode:
+            # value of a guarded union used as a number in a specification: the numeric alternatives, arbitrary otherwise
+            out = fresh('undef', I)
+            for c, x in v.alts:
+                if isinstance(x, (VInt, VBool)): out = z3.If(c, self.num(x, what, path, line)[0], out)
+            return out, False
         if isinstance(v, VEnumSym): return v.t, False
         if isinstance(v, VEnum): return z3.IntVal(self.repo.enums[v.cls][v.name]), False
         if isinstance(v, VAff): return v.t, False            # value of an LP expression under the ghost valuation
@@ -176,7 +182,9 @@ class ExprMixin:
             if a.atoms == b.atoms: return a
             return VStr([('ite', c, a, b)])
         if isinstance(a, VList) and isinstance(b, VList) and a.kind == b.kind:
-            return VList(z3.If(c, a.len, b.len), z3.If(c, a.arr, b.arr), a.kind)
+            # one ite on the list value (not on length and array separately): list equalities then split on c only
+            L = list_sort(a.kind); t = z3.If(c, a.term(), b.term())
+            return VList(L.len(t), L.arr(t), a.kind)
         if isinstance(a, VTuple) and isinstance(b, VTuple) and len(a.items) == len(b.items):
             return VTuple([self.merge(c, x, y) for x, y in zip(a.items, b.items)])
         if isinstance(a, VCList) and isinstance(b, VCList):
@@ -550,6 +558,7 @@ class ExprMixin:
             self.vc('no-raise/subscript-None@%d' % line, p, z3.BoolVal(False), line=line)
             raise Undecided('subscript of None')
         if isinstance(b, VPy): return self.py_index(b, i, p, line)
+        if isinstance(b, (VInt, VBool, VReal)) and self.spec_mode: return VUnion([])       # no such component (specs are total)
         if isinstance(b, VUnion):
             alts = []
             for c, x in b.alts:
